@@ -18,6 +18,7 @@
 import PdbVerif.Proofs.RmsdInv
 import PdbVerif.Proofs.RmsdMsd
 import PdbVerif.Proofs.RmsdDemo
+import PdbVerif.Proofs.RmsdKernel
 import PdbVerif.Model.Parse
 
 set_option linter.unusedVariables false
@@ -324,6 +325,16 @@ theorem identical_scores_zero_irmsd (rotmat : List (Vec3 ℝ) → List (Vec3 ℝ
 /-- non-vacuity of the kernel hypothesis: for identical point sets the kernel that returns the identity is optimal -/
 example : KernelOptimalAt (fun _ _ => .ok Mat3.one) [((⟨1, 2, 3⟩ : Vec3 ℝ), (⟨1, 2, 3⟩ : Vec3 ℝ)), (⟨0, 1, 0⟩, ⟨0, 1, 0⟩)] :=
   kernelOptimalAt_of_equal _ (by simp)
+
+/-- **The kernel hypothesis is C06's theorem.**  For the library's Kabsch kernel (`Model.kabsch`, the model of
+    `get_rotation_matrix_Kabsh` with its guards and the centring tolerance `eps ≥ 0`), `KernelOptimalAt` holds on every
+    non-empty fitting list as soon as `np.linalg.svd` meets its contract at the covariance of the centred sets
+    (`Props.C06.rmsd_minimal`); so `irmsd_is_min` and `lrmsd_is_fit_then_eval` hold for the SVD method under that contract. -/
+theorem kernel_optimal_from_C06 (svd : Mat3 ℝ → Mat3 ℝ × Vec3 ℝ × Mat3 ℝ) (eps : ℝ) (heps : 0 ≤ eps)
+    (fit : List (Vec3 ℝ × Vec3 ℝ)) (hfit : fit ≠ [])
+    (hsvd : Proofs.Guards.SvdOK svd (centre (fit.map (·.1))) (centre (fit.map (·.2)))) :
+    KernelOptimalAt (Model.kabsch svd eps) fit :=
+  kernelOptimalAt_kabsch svd eps heps fit hfit hsvd
 
 /-- L-RMSD of identical structures, at the level the kernel hypothesis supports without a rank condition: the optimal
     superposition of the (identical) fitting pairs has deviation 0, and the identity motion — one of the optimal motions —
